@@ -366,6 +366,7 @@ impl Check for C01Check {
             Phase::random("random-asts", tier.pick(60_000, 1_500_000), 160).with_min_tape(24).with_chunk(512),
             Phase::exhaustive("control-flow-skeletons", astgen::CONTROL.count_up_to(tier.pick(8, 9))).with_chunk(2048),
             Phase::exhaustive("operators-on-value-pairs", valuepool::binary_program_count() + valuepool::unary_program_count()).with_chunk(1024),
+            Phase::exhaustive("repetition", repetition_programs().len() as u64).with_chunk(16),
         ]
     }
     fn run(&self, tier: Tier, phase: usize, input: &Input, ctx: &mut CaseCtx) {
@@ -401,6 +402,11 @@ impl Check for C01Check {
                 let src = if *i < valuepool::binary_program_count() { valuepool::binary_program(*i) } else { valuepool::unary_program(*i - valuepool::binary_program_count()) };
                 ctx.class("operator-on-values");
                 self.judge_text(&src, &[0, 1], ctx);
+            }
+            (4, Input::Index(i)) => {
+                let progs = repetition_programs();
+                ctx.class("repetition");
+                self.judge_text(&progs[*i as usize], &[0, 2], ctx);
             }
             (_, Input::Text(s)) => {
                 // a program given as text (hand-written regression, or the coverage-guided stage): read by the reference
